@@ -20,7 +20,8 @@
  *   L <n> <link>                  (probe) chain of n two-word pieces linked through word <link>, head in root 1
  * answer to G/C:  `id:w,w,.. id:w,..| dead=<ids> reused=<ids> badpoison=<ids>` listing every piece that
  * is still allocated (stoIsPointer) with its words decoded against what was written:
- *   n = untouched new fill (0xAA..), <number> = integer, p<tid>+<off> = pointer, !<hex> = anything else.
+ *   n = untouched new fill (0xAA..), <number> = integer, p<tid>+<off> = pointer, !<hex> = anything else;
+ *   a run of 4 or more equal words is written `w*count`.
  *
  * Addresses of pieces are kept complemented so that the driver's own tables are not roots. */
 #include "axlgen.h"
@@ -30,8 +31,9 @@
 #include "drv_common.h"
 #include <setjmp.h>
 #include <signal.h>
+#include <sys/mman.h>
 
-#define MAXB   200000
+#define MAXB   400000
 #define NROOT  16
 #define NEWW   0xAAAAAAAAAAAAAAAAUL
 #define DDDW   0xDDDDDDDDDDDDDDDDUL
@@ -49,6 +51,25 @@ static int     live_ids[MAXB], nlive;    /* ids with state 0 */
 static ULong   gc_bytes_seen;            /* stoBytesGc at the last survey: unchanged => nothing was reclaimed since */
 
 static int opbase, opend;                /* token range of the operation being executed */
+
+/* the shadow of a large piece is mapped and unmapped directly: malloc would leave tens of MB of freed
+ * memory between the store's sections, which stoGcMark then scans as foreign pages at every collection */
+#define SHADOW_MMAP (32 * 1024)
+static Shadow *shadow_new(int n)
+{
+	size_t sz = sizeof(Shadow) * (size_t) n;
+	if (sz >= SHADOW_MMAP) {
+		void *p = mmap(0, sz, PROT_READ | PROT_WRITE, MAP_PRIVATE | MAP_ANONYMOUS, -1, 0);
+		return p == MAP_FAILED ? 0 : (Shadow *) p;
+	}
+	return (Shadow *) malloc(sz);
+}
+static void shadow_free(Shadow *p, int n)
+{
+	size_t sz = sizeof(Shadow) * (size_t) n;
+	if (!p) return;
+	if (sz >= SHADOW_MMAP) munmap(p, sz); else free(p);
+}
 
 static sigjmp_buf segv_env;
 static volatile int segv_armed;
@@ -107,7 +128,8 @@ static __attribute__((noinline)) int do_alloc(int code, int n)
 	tab[id] = ~a;
 	nwords[id] = n;
 	state[id] = 0;
-	shadow[id] = (Shadow *) malloc(sizeof(Shadow) * n);
+	shadow[id] = shadow_new(n);
+	if (!shadow[id]) return -1;
 	for (i = 0; i < n; i++) { shadow[id][i].k = 'n'; shadow[id][i].t = 0; shadow[id][i].off = 0; }
 	live_ids[nlive++] = id;
 	nblk++;
@@ -181,13 +203,25 @@ static __attribute__((noinline)) void report(void)
 		unsigned long *w = (unsigned long *) ~tab[b];
 		printf("%s%d:", first ? "" : " ", b);
 		first = 0;
-		for (k = 0; k < nwords[b]; k++) {
-			Shadow *s = &shadow[b][k];
-			if (k) putchar(',');
-			if (w[k] != expect(s)) printf("!%lx", w[k] == DDDW ? 0xDDUL : w[k] == NEWW ? 0xAAUL : 1UL);
-			else if (s->k == 'n') putchar('n');
-			else if (s->k == 'v') printf("%d", s->off);
-			else printf("p%d%s%d", s->t, s->off < 0 ? "" : "+", s->off);
+		{
+			/* runs of 4 or more equal words are printed as `w*count` */
+			char cur[40], prev[40];
+			long run = 0;
+			int firstw = 1;
+			prev[0] = 0;
+			for (k = 0; k <= nwords[b]; k++) {
+				if (k < nwords[b]) {
+					Shadow *s = &shadow[b][k];
+					if (w[k] != expect(s)) sprintf(cur, "!%lx", w[k] == DDDW ? 0xDDUL : w[k] == NEWW ? 0xAAUL : 1UL);
+					else if (s->k == 'n') strcpy(cur, "n");
+					else if (s->k == 'v') sprintf(cur, "%d", s->off);
+					else sprintf(cur, "p%d%s%d", s->t, s->off < 0 ? "" : "+", s->off);
+					if (run && !strcmp(cur, prev)) { run++; continue; }
+				}
+				if (run >= 4) { printf("%s%s*%ld", firstw ? "" : ",", prev, run); firstw = 0; }
+				else for (; run > 0; run--) { printf("%s%s", firstw ? "" : ",", prev); firstw = 0; }
+				strcpy(prev, cur); run = 1;
+			}
 		}
 		w = 0;
 	}
@@ -207,7 +241,7 @@ static void reset(void)
 {
 	int i;
 	for (i = 0; i < NROOT; i++) gc_roots[i] = 0;
-	for (i = 0; i < nblk; i++) { free(shadow[i]); shadow[i] = 0; }
+	for (i = 0; i < nblk; i++) { shadow_free(shadow[i], nwords[i]); shadow[i] = 0; }
 	nblk = nlive = 0;
 	do_gc();
 }
